@@ -6,7 +6,8 @@ from pvlib import hx
 LEVEL = "proof"
 RULE = ("in-process MurmurHash64A and MurmurHashNative: every length 0..300 (quick) / 0..4096 (thorough) x all 8 start "
         "alignments x seeds {0,1,shard seed,random}, string ending at the end of its allocation (ASan red zone); "
-        "bin/mmhsum and bin/order_independent_hash on seeded inputs; non-trivial = distinct (len, align, seed, content)")
+        "bin/mmhsum and bin/order_independent_hash on seeded inputs; bin/shard -f placement against the reference fold over the selected "
+        "ranges incl. empty fields; non-trivial = distinct (len, align, seed, content)")
 ASSUMPTIONS = ["little-endian 64-bit platform (MurmurHash64B / ARM paths are not modelled)",
                "model transcribes util/murmur_hash.cc; m and r are regenerated from the source text"]
 
@@ -28,6 +29,7 @@ def run(ctx):
     spec_ops = [o.replace("murmur.hash", "murmur.spec.hash").replace("murmur.native", "murmur.spec.hash") for o in ops]
     pvlib.judge_by_spec(ctx, "murmur", ops, a, b, spec_ops, "reference MurmurHash64A", "PV.Murmur.hash64A vs util/murmur_hash.cc")
     case_tools(ctx)
+    fold_tools(ctx)
     # tools: mmhsum = chained hash over 1 MiB reads (seed 0); order_independent_hash = sum of per-line hashes (seed 0)
     for _ in range(12 if ctx.tier == "quick" else 60):
         n = rng.choice([0, 1, 7, 8, 9, 1000, rng.randrange(0, 5000)])
@@ -52,6 +54,42 @@ def run(ctx):
                                    "got": out.decode(errors="replace"), "want": str(tot)},
                                    summary=f"order_independent_hash prints {out!r}, sum of reference hashes is {tot}")
             break
+
+
+def fold_tools(ctx):
+    """shard -f: the file of a line is (left fold of reference MurmurHash64A over the selected field ranges, in order,
+    starting from the shard seed) mod n -- also when a selected field is empty (an empty range still mixes the running
+    hash), for single fields and non-contiguous lists."""
+    import shutil
+    rng = ctx.rng
+    vals = [b"", b"", b"a", b"b", b"caf\xc3\xa9", b"x y", b"0"]
+    lines = list(dict.fromkeys(b"\t".join(rng.choice(vals) for _ in range(4)) for _ in range(120)))
+    data = b"".join(l + b"\n" for l in lines)
+    for spec, idx in (("1", [0]), ("2", [1]), ("1,3", [0, 2]), ("2,4", [1, 3]), ("4,1", [0, 3]), ("1,2,4", None)):
+        n = rng.choice([13, 16])
+        wd = os.path.join(ctx.tmp, "foldshard")
+        shutil.rmtree(wd, ignore_errors=True)
+        os.makedirs(wd)
+        names = [os.path.join(wd, "s%d" % i) for i in range(n)]
+        st, out, err = pvlib.run_tool([ctx.bin("shard"), "-f", spec] + names, data, env=pvlib.san_env(), timeout=60)
+        ctx.count("shard-fold", 1, [(spec, n, data)])
+        where = {}
+        for i, nm in enumerate(names):
+            for l in (open(nm, "rb").read().split(b"\n")[:-1] if os.path.exists(nm) else []):
+                where[l] = i
+        for l in lines:
+            f = l.split(b"\t")
+            # ranges after DefragmentFields: sorted; adjacent fields merge into one range that includes the delimiter
+            pieces = [f[0] + b"\t" + f[1], f[3]] if idx is None else [f[i] for i in idx]
+            h = 47849374332489
+            for pc in pieces:
+                h = int(pvlib.run_lines(pvlib.PVDRIVER, [f"murmur.spec.hash {h} {hx(pc)} 0"])[0].split()[1])
+            if st != 0 or where.get(l) != h % n:
+                pvlib.report_violation(ctx, f"shard-fold:{spec}:{hx(l)}", {"argv": ["shard", "-f", spec, f"s0..s{n - 1}"], "stdin_hex": hx(data), "line": hx(l),
+                                       "selected_ranges": [hx(pc) for pc in pieces], "reference_fold": h, "expected_file": h % n, "got_file": where.get(l), "status": st},
+                                       summary=f"shard -f {spec} into {n}: line {l!r} (selected ranges {pieces!r}) is in file {where.get(l)}; the fold of reference "
+                                               f"MurmurHash64A over the ranges from the shard seed gives {h} -> file {h % n}")
+                return
 
 
 def case_tools(ctx):
